@@ -19,7 +19,8 @@ vars == <<l, w>>
 
 EmptyG == [steps |-> <<>>, pools |-> <<>>, defaults |-> <<>>]
 NoPend == [s |-> 0, deps |-> <<>>]
-NoInv  == [targets |-> <<>>, j |-> 1, k |-> 0, adopt |-> FALSE, file |-> "build.ninja", explain |-> FALSE]
+NoInv  == [targets |-> <<>>, j |-> 1, k |-> 0, adopt |-> FALSE, file |-> "build.ninja", explain |-> FALSE,
+           cdir |-> ""]
 \* What `-d explain` last said and has not yet been matched with a check result.
 NoXpl  == [kind |-> "", loc |-> "", file |-> "", sig |-> <<>>]
 
@@ -88,6 +89,7 @@ StepFields == {"outs", "nxo", "ins", "nxi", "oo", "val", "phony", "cmd", "desc",
                "depfile", "msvc", "rsp", "rspc", "hasrsp", "pool"}
 SameStep(a, b) == \A f \in StepFields : a[f] = b[f]
 
+NamesOf(g, S) == {g.steps[s].outs[1] : s \in S}
 SumSeq6(c) == c[1] + c[2] + c[3] + c[4] + c[5] + c[6]
 CountSt(g, x) == Cardinality({s \in StepIds(g) : ~IsPhony(g, s) /\ StOf(s) = x})
 
@@ -131,7 +133,7 @@ DoFs(ev) == [w EXCEPT !.file = (ev.path :> ev.mt) @@ @, !.changed = TRUE]
 
 DoInvoke(ev) ==
   LET inv == [targets |-> ev.targets, j |-> ev.j, k |-> ev.k, adopt |-> ev.adopt, file |-> ev.file,
-              explain |-> ev.explain]
+              explain |-> ev.explain, cdir |-> ev.cdir]
       rep == w.prevOK /\ ~w.changed /\ ev.targets = w.prevTargets /\ ev.file = w.prevFile
   IN [w EXCEPT !.inv = inv, !.workNo = 0, !.bad = FALSE, !.g = EmptyG,
                !.cur = <<>>, !.st = <<>>,
@@ -148,12 +150,15 @@ DoWork(ev) ==
       same == /\ known
               /\ Len(ev.builds) = Len(g2.steps)
               /\ \A i \in DOMAIN g2.steps : SameStep(ev.builds[i], g2.steps[i])
-              /\ Range(ev.pools) = Range(g2.pools)
+      \* (a pool table that differs from the declared one does not stop the mirror: what then
+      \* runs concurrently is judged against the declared depths, C04)
+      samePools == Range(ev.pools) = Range(g2.pools)
       ld == Loaded(g2, w.log)
       ldok == \A s \in StepIds(g2) :
                  ev.builds[s].tok = ld[s].tok /\ ev.builds[s].disc = ld[s].deps
       nld == Cardinality({s \in StepIds(g2) : ld[s].tok # ""})
       v == Lbl(IF ev.n = 1 THEN {"C10"} ELSE {"C10", "C17"}, "graph", same)
+           \cup Lbl(IF ev.n = 1 THEN {"C10"} ELSE {"C10", "C17"}, "graph-pools", known => samePools)
            \cup Lbl({"C13"}, "uncanonical-node",
                   known => \A i \in DOMAIN ev.builds : DumpNames(ev.builds[i]) \cap Uncanonical(g2) = {})
            \cup (IF same THEN Lbl({"C08", "C07"}, "loaded", ldok) ELSE {})
@@ -430,6 +435,18 @@ DoEnd(ev) ==
                 \cup Lbl({"C04"}, "pool-undeclared-ok", (badPool # {} /\ ok) => \A s \in badPool : ~DirtyNow(g, s) /\ s \notin w.started)
                 \cup Lbl({"C04"}, "pool-arg", ev.errk = "unknown_pool" => \E s \in badPool : PoolOf(g, s) = ev.errarg)
                 \cup Lbl({"C17"}, "no-reload", (w.p1ok /\ w.workNo = 1 /\ w.finFail = {} /\ w.intr = {}) => ev.err # "")
+                \* ... and when n2 went on without reloading: what it then did is judged against the
+                \* manifest text now on disk (C18's "(reloaded) manifest"): commands run for the
+                \* requested targets lie in their closure there, names it does not have are rejected,
+                \* names it has are not
+                \cup (IF w.p1ok /\ w.workNo = 1 /\ w.finFail = {} /\ w.intr = {} /\ MFile \in DOMAIN w.manif
+                      THEN LET gd == w.manif[MFile]
+                               ran2 == NamesOf(g, w.started \ W1(g))
+                           IN Lbl({"C18", "C17"}, "stale-graph",
+                                  /\ ran2 \subseteq NamesOf(gd, Needed(gd, T2(gd)))
+                                  /\ (UnknownTargets(gd) # {} => ~ok)
+                                  /\ (ev.errk = "unknown_path" => CanonOf(gd, ev.errarg) \in UnknownTargets(gd)))
+                      ELSE {})
                 \cup Lbl({"C05", "C06"}, "keep-going",
                        (~ok /\ ev.err = "" /\ w.intr = {} /\ budgetLeft)
                           => \A s \in kgScope : downstream(s) \/ uptodate(s)))
@@ -449,8 +466,10 @@ DoEnd(ev) ==
       vlog == Lbl({"C18"}, "log-location",
                   (loaded /\ "dbat" \in DOMAIN ev) =>
                      Range(ev.dbat) = {IF bdir = "" THEN ".n2_db" ELSE bdir \o "/.n2_db"})
+      \* -C: n2 works in the named directory (and everything else is as if started there)
+      vcwd == Lbl({"C18"}, "chdir", (loaded /\ "cwd" \in DOMAIN ev) => ev.cwd = w.inv.cdir)
       vdead == Lbl({"C06"}, "hang", ev.dead \notin {"hang", "livelock"})
-  IN [w EXCEPT !.viol = IF dead THEN @ \cup vdead ELSE @ \cup v \cup vexit \cup vlog,
+  IN [w EXCEPT !.viol = IF dead THEN @ \cup vdead ELSE @ \cup v \cup vexit \cup vlog \cup vcwd,
                !.cov = IF dead THEN @ ELSE cov,
                !.inInv = FALSE, !.lastOk = (~dead /\ ok),
                !.lastSum = <<ev.summary, IF ev.summary = "ran" THEN ev.n ELSE 0>>,
